@@ -858,10 +858,59 @@ c20_h_cb(nng_http *conn, void *arg, nng_aio *aio)
 {
 	(void) arg;
 	nng_http_set_status(conn, NNG_HTTP_STATUS_OK, NULL);
-	int rv = nng_http_copy_body(conn, "dynamic", 7);
+	const char *tok = nng_http_get_header(conn, "X-Token");
+	char        b[64];
+	snprintf(b, sizeof(b), "dynamic%s%.40s", tok ? ":" : "", tok ? tok : "");
+	int rv = nng_http_copy_body(conn, b, strlen(b));
 	if (rv == 0)
 		rv = nng_http_set_header(conn, "X-C20", "yes");
 	nng_aio_finish(aio, rv);
+}
+
+// a client connection whose request is edited several times before it is sent: long URIs (beyond
+// the connection's inline buffer) replaced by other long URIs, a header replaced and extended; an
+// edit that fails with NNG_ENOMEM is retried, and the request that finally goes out is the one the
+// successful edits describe
+static int
+http_edited_get(nng_http_client *cli, nng_aio *aio, int *st, char *body, size_t bsz)
+{
+	nng_http *conn;
+	int       rv;
+	char      l1[300], l2[320];
+	memset(l1, 'a', sizeof(l1) - 1);
+	memset(l2, 'b', sizeof(l2) - 1);
+	l1[0] = l2[0] = '/';
+	l1[sizeof(l1) - 1] = l2[sizeof(l2) - 1] = 0;
+	nng_aio_set_timeout(aio, 1000);
+	nng_http_client_connect(cli, aio);
+	if ((rv = aio_done_ok(aio)) != 0)
+		return rv;
+	conn = nng_aio_get_output(aio, 0);
+	LOCAL(nng_http_set_uri(conn, l1, NULL));
+	LOCAL(nng_http_set_uri(conn, l2, "k=v"));
+	LOCAL(nng_http_set_header(conn, "X-Token", "one"));
+	LOCAL(nng_http_set_header(conn, "X-Token", "two"));
+	LOCAL(nng_http_add_header(conn, "X-Token", "three"));
+	LOCAL(nng_http_set_header(conn, "X-Other", "o"));
+	nng_http_del_header(conn, "X-Other");
+	LOCAL(nng_http_set_uri(conn, "/dyn", NULL));
+	if (strcmp(nng_http_get_uri(conn), "/dyn") != 0)
+		vs_fail("C20:misbehaves-after-failure", "request URI is \"%.40s\" after set_uri(\"/dyn\")",
+		    nng_http_get_uri(conn));
+	nng_aio_set_timeout(aio, 1000);
+	nng_http_transact(conn, aio);
+	if ((rv = aio_done_ok(aio)) == 0) {
+		void  *b;
+		size_t n;
+		*st = (int) nng_http_get_status(conn);
+		nng_http_get_body(conn, &b, &n);
+		if (n >= bsz)
+			n = bsz - 1;
+		memcpy(body, b, n);
+		body[n] = 0;
+	}
+	nng_http_close(conn);
+	return rv;
 }
 
 // GET path over a fresh connection: 0 = transaction completed (status and body in *st, body),
@@ -929,7 +978,8 @@ prog_http(void *arg)
 		int         st;
 		const char *body;
 	} G[] = { { "/dyn", 200, "dynamic" }, { "/static", 200, "static-body" },
-		{ "/old", 301, NULL }, { "/missing", 404, "<b>nope</b>" } };
+		{ "/old", 301, NULL }, { "/missing", 404, "<b>nope</b>" },
+		{ "(edited request)", 200, "dynamic:two, three" } };
 	for (int pass = 0; pass < 2; pass++) {
 		// pass 0 with the failing allocation somewhere, pass 1 with a healthy allocator: every
 		// handler answers as configured ("does not leave the object in a state where later calls
@@ -937,16 +987,18 @@ prog_http(void *arg)
 		int save = va_choice;
 		if (pass == 1)
 			va_choice = 0;
-		for (int i = 0; i < 4; i++) {
+		for (int i = 0; i < 5; i++) {
 			long f0 = va_failed;
-			rv      = http_get(cli, aio, G[i].path, &st, body, sizeof(body));
+			rv      = i == 4 ? http_edited_get(cli, aio, &st, body, sizeof(body))
+			                 : http_get(cli, aio, G[i].path, &st, body, sizeof(body));
 			if (rv != 0) {
 				if (pass == 0 && va_failed)
 					continue; // best-effort loss of one connection
 				// one connection attempt of the healthy pass may still meet what the failure
 				// left in the accept queue
 				if (pass == 1 && va_failed)
-					rv = http_get(cli, aio, G[i].path, &st, body, sizeof(body));
+					rv = i == 4 ? http_edited_get(cli, aio, &st, body, sizeof(body))
+					            : http_get(cli, aio, G[i].path, &st, body, sizeof(body));
 				if (rv != 0)
 					vs_fail(pass ? "C20:wedged-after-failure" : "harness:fault-free",
 					    "GET %s -> %d (%s), injected=%ld site %s", G[i].path, rv,
